@@ -54,6 +54,7 @@ from ..ast.fpyast import (
     Stmt,
     StmtBlock,
     Var,
+    WhileStmt,
 )
 from ..ast.visitor import DefaultTransformVisitor
 from ..utils import Gensym
@@ -138,6 +139,13 @@ class _ReduceFusionInstance(DefaultTransformVisitor):
 
     # ------------------------------------------------------------------
     # Positions with no statement-level slot: suppress fusion.
+
+    def _visit_while(self, stmt: WhileStmt, ctx: Any):
+        # the condition is re-evaluated on every iteration: a loop hoisted
+        # before the `while` would run once
+        cond = self._visit_expr(stmt.cond, None)
+        body, _ = self._visit_block(stmt.body, ctx)
+        return WhileStmt(cond, body, stmt.loc), ctx
 
     def _visit_list_comp(self, e: ListComp, ctx: Any) -> ListComp:
         # The elt sees the loop targets and successive iterables reference
